@@ -17,7 +17,7 @@ def register(PROPS):
                  'Second epoch: from every distinct crash-point image (and the completed one) the restarted daemon is given, for each task it scheduled, '
                  'a CANCEL by its owner or a replacement by a small task, and checkpoints; memory must show exactly the restarted set with that change, '
                  'every live queue file must be ONE complete calendar (nothing before its BEGIN or behind the END that closes it), and a further restart '
-                 'on that spool must schedule exactly that set (what an interrupted checkpoint leaves behind - temp files - must not leak into later ones).  The same is asked of the daemon that lives on after an injected fault: one more command, an undisturbed checkpoint, files and a restart are judged for every distinct (spool, queue) pair a fault leaves.  Geometry: one task of about 4.7 kB with a command line of every length 1..1000, final checkpoint, the queue file must be one complete calendar of printable lines no longer than the reader takes, holding every address and file name that was sent, and a restart must schedule the task.  A separate '
+                 'on that spool must schedule exactly that set (what an interrupted checkpoint leaves behind - temp files - must not leak into later ones).  The same is asked of the daemon that lives on after an injected fault: one more command, an undisturbed checkpoint, files and a restart are judged for every distinct (spool, queue) pair a fault leaves.  Geometry: one task of about 4.7 kB with a command line of every length 1..1000, final checkpoint, the queue file must be one complete calendar of printable lines no longer than the reader takes, holding every address and file name that was sent, and a restart must schedule the task.  Two linear histories have a job RUNNING at the clean shutdown (its task cancelled just before, or left alone): the final checkpoint must hold exactly what is queued.  ADD with the owner spelled as the login name of the submitter is in the alphabet.  The dump-everybody path (3 users x 7 tasks, 18 change notes) is run with every spool call failing once.  A separate '
                  'configuration drives 15-18 users through the "dump everybody" path.',
         'note': 'Crash model is process death at a system-call boundary (as the property states): no fsync/power-loss or torn-sector semantics.  '
                 'Trusted: the in-memory spool of harness/daemon/hx.h and the map model in e2_chkpt.c.  Time does not advance in these histories.',
